@@ -51,11 +51,18 @@ def ops():
     for i in range(_N):
         for j in range(_N):
             if i != j:
-                out.append(("rekey", i, j))
+                for route in ROUTES:
+                    out.append(("rekey", i, j, route))
+    for i in range(_N):
+        out.append(("ext_init", i))  # another process / Project object creates the job behind the session's back
     out += [("update_cache",), ("restart",), ("delete_cache",), ("query",)]
     for i in range(_N):
         out.append(("open_by_id", i))
     return out
+
+
+# how the re-keying handle is obtained and which public route changes the state point
+ROUTES = ("sp+assign", "id+update", "iter+attr")
 
 
 FILTERS = [{}, {"k": 0}, {"k": {"$gt": 0}}, {"k": {"$exists": True}}, {"$not": {"k": 1}}, {"k": {"$in": [0, 2]}}]
@@ -174,12 +181,26 @@ def execute(hist):
                 elif name == "remove":
                     session.open_job(points[op[1]]).remove()
                     model.discard(op[1])
+                elif name == "ext_init":
+                    signac.Project(d).open_job(points[op[1]]).init()
+                    model.add(op[1])
                 elif name == "rekey":
                     i, j = op[1], op[2]
-                    job = session.open_job(points[i])
+                    route = op[3] if len(op) > 3 else ROUTES[0]
+                    if route == "id+update" and i in model:
+                        job = session.open_job(id=ids_of[i])
+                    elif route == "iter+attr" and i in model:
+                        job = next(x for x in session if x.id == ids_of[i])
+                    else:
+                        job = session.open_job(points[i])
                     should_fail = i in model and j in model
                     try:
-                        job.statepoint = points[j]
+                        if route == "id+update":
+                            job.update_statepoint({"k": points[j]["k"]}, overwrite=True)
+                        elif route == "iter+attr":
+                            job.sp.k = points[j]["k"]
+                        else:
+                            job.statepoint = points[j]
                         failed = None
                     except DestinationExistsError as e:
                         failed = e
